@@ -163,7 +163,17 @@ pub fn verify<'a>(
         let mut want: Vec<(String, Vec<u8>)> = ent_headers
             .unwrap_or(&[])
             .iter()
-            .map(|(k, v)| (k.to_ascii_lowercase(), v.clone()))
+            .map(|(k, v)| {
+                // optional whitespace around a field value is not part of the value
+                let mut x = &v[..];
+                while let [b' ' | b'\t', r @ ..] = x {
+                    x = r;
+                }
+                while let [r @ .., b' ' | b'\t'] = x {
+                    x = r;
+                }
+                (k.to_ascii_lowercase(), x.to_vec())
+            })
             .collect();
         want.sort();
         others.sort();
